@@ -189,8 +189,8 @@ def span(tid: str, i: int, parent: str | None, start: int, end: int, etype: str 
 
 
 def pool_c10() -> list[Span]:
-    """two traces; one id occurs twice with different content (so 'the first occurrence' is observable); one span's parent
-    is the duplicated id; one span has a parent that never arrives"""
+    """two traces; one id occurs twice with different content (so 'the first occurrence' is observable), and a third time
+    under *another trace id*; one span's parent is the duplicated id; one span has a parent that never arrives"""
     return [
         span("A", 0, None, 0, 4),
         span("A", 1, "A.s0", 1, 2),
@@ -198,6 +198,7 @@ def pool_c10() -> list[Span]:
         span("A", 2, "A.s1", 2, 2),
         span("B", 0, None, 1, 1, name="W2"),
         span("B", 1, "ghost", 3, 4, name="W2"),
+        span("B", 2, "B.s0", 2, 2, name="W2", eid="A.s1"),              # the same span id re-used by another trace
     ]
 
 
